@@ -190,10 +190,30 @@ def _cat_spec(rng, numeric_only=False, str_only=False):
         sub = "num_" + form
     weights = _zipf_weights(len(cats), rng)
     effects = [rng.random() for _ in cats]
-    return {"sub": sub, "cats": cats, "weights": weights, "effects": effects}
+    spec = {"sub": sub, "cats": cats, "weights": weights, "effects": effects}
+    if sub in ("num_int", "num_intfloat", "num_float") and rng.random() < 0.5:
+        # a numeric pandas dtype instead of python objects (values come out of pandas as numpy scalars)
+        spec["col_dtype"] = "int64" if sub == "num_int" else "float64"
+    return spec
 
 
 def _ord_spec(rng):
+    if rng.random() < 0.3:
+        # numeric-valued ordinal feature ranked through the string forms of its values; the ranking
+        # may lack observed values (they are appended to it by the string conversion step)
+        k = rng.randint(3, 7)
+        numbers = [float(i) for i in range(1, k + 1)] if rng.random() < 0.5 else list(range(1, k + 1))
+        ranking = [str(i) for i in range(1, k + 1)]
+        if rng.random() < 0.4:
+            for gone in rng.sample(ranking, rng.choice([1, 2])):
+                if len(ranking) > 2:
+                    ranking.remove(gone)
+        weights = _zipf_weights(len(numbers), rng)
+        rng.shuffle(weights)
+        spec = {"ranking": ranking, "observed": numbers, "weights": weights, "sub": "num"}
+        if rng.random() < 0.5:
+            spec["col_dtype"] = "float64"
+        return spec
     pool = list(rng.choice(ORD_POOLS))
     k = rng.randint(3, len(pool))
     start = rng.randint(0, len(pool) - k)
@@ -223,7 +243,10 @@ def _draw_ord(rng, n, spec):
         i = _windex(rng, spec["weights"])
         val = spec["observed"][i]
         vals.append(val)
-        lat.append(spec["ranking"].index(val) / max(1, k - 1))
+        if spec.get("sub") == "num":
+            lat.append(i / max(1, len(spec["observed"]) - 1))
+        else:
+            lat.append(spec["ranking"].index(val) / max(1, k - 1))
     return vals, lat
 
 
@@ -425,6 +448,10 @@ def generate_world(rng, tier="quick", force_class=None, min_features=1, max_feat
             feat["sub"] = spec["sub"]
         else:
             feat["ranking"] = spec["ranking"]
+            if spec.get("sub"):
+                feat["sub"] = spec["sub"]
+        if spec.get("col_dtype"):
+            feat["col_dtype"] = spec["col_dtype"]
         feats.append(feat)
     index_kind = rng.choice(["range", "range", "offset", "shuffled", "str"])
     world = {
@@ -566,6 +593,11 @@ def _column(feat, values):
             return pd.Series(values, dtype="int64")
         dtype = "float32" if feat.get("dtype") == "float32" else "float64"
         return pd.Series([np.nan if v is None else v for v in values], dtype=dtype)
+    col_dtype = feat.get("col_dtype")
+    if col_dtype == "int64" and all(v is not None for v in values):
+        return pd.Series(values, dtype="int64")
+    if col_dtype in ("int64", "float64"):
+        return pd.Series([np.nan if v is None else float(v) for v in values], dtype="float64")
     return pd.Series([np.nan if v is None else v for v in values], dtype="object")
 
 
